@@ -3,6 +3,8 @@ package main
 import (
 	"encoding/json"
 	"go/ast"
+	"go/token"
+	"go/types"
 	"fmt"
 	"os"
 	"path/filepath"
@@ -472,7 +474,7 @@ func paramFacts(p *Prog, e *flowEngine, scope func(string) bool) map[string]*pfa
 				continue // receiver: gadget state, not an operand
 			}
 			fs := fsetOf(e.ParamFacts(fn, i))
-			if len(fs.lab) == 0 {
+			if !hasDirectFact(fs) {
 				continue
 			}
 			k := fmt.Sprintf("%s | param#%d", Abstract(FuncName(fn)), i)
@@ -480,6 +482,44 @@ func paramFacts(p *Prog, e *flowEngine, scope func(string) bool) map[string]*pfa
 				old.f = old.f.meet(fs)
 			} else {
 				out[k] = &pfact{f: fs, pkg: pk.Path(), fname: FuncName(fn), pos: p.Pos(FuncPos(fn))}
+			}
+			// field-level facts for struct operands whose fields this function reads directly
+			if st, ok := deref(pm.Type()).Underlying().(*types.Struct); ok && isModuleStruct(pm.Type()) && st.NumFields() <= 32 {
+				seeds := map[int]map[ssa.Value]flabel{}
+				for _, b := range fn.Blocks {
+					for _, ins := range b.Instrs {
+						switch x := ins.(type) {
+						case *ssa.FieldAddr:
+							if paramRoot(x.X) == pm {
+								if seeds[x.Field] == nil {
+									seeds[x.Field] = map[ssa.Value]flabel{}
+								}
+								seeds[x.Field][x] = lRaw
+							}
+						case *ssa.Field:
+							if paramRoot(x.X) == pm {
+								if seeds[x.Field] == nil {
+									seeds[x.Field] = map[ssa.Value]flabel{}
+								}
+								seeds[x.Field][x] = lRaw
+							}
+						}
+					}
+				}
+				for fi, sd := range seeds {
+					loc := map[string]flabel{}
+					e.collectLocal(loc, e.forward(fn, sd, 0))
+					ffs := fsetOf(loc)
+					if !hasDirectFact(ffs) {
+						continue
+					}
+					fk := fmt.Sprintf("%s | param#%d.%s", Abstract(FuncName(fn)), i, st.Field(fi).Name())
+					if old, ok := out[fk]; ok {
+						old.f = old.f.meet(ffs)
+					} else {
+						out[fk] = &pfact{f: ffs, pkg: pk.Path(), fname: FuncName(fn), pos: p.Pos(FuncPos(fn))}
+					}
+				}
 			}
 		}
 	}
@@ -546,4 +586,35 @@ func init() {
 		fmt.Println(string(b))
 		return 0
 	}
+}
+
+func hasDirectFact(f *fset) bool {
+	for k := range f.lab {
+		if !strings.HasPrefix(k, "heap:") {
+			return true
+		}
+	}
+	return false
+}
+
+// paramRoot: v is the parameter itself, a load of its spill cell, or a dereference of it.
+func paramRoot(v ssa.Value) *ssa.Parameter {
+	for d := 0; d < 4 && v != nil; d++ {
+		switch x := v.(type) {
+		case *ssa.Parameter:
+			return x
+		case *ssa.UnOp:
+			if x.Op == token.MUL {
+				v = x.X
+				continue
+			}
+		case *ssa.Alloc:
+			if sv := singleStore(x); sv != nil {
+				v = sv
+				continue
+			}
+		}
+		return nil
+	}
+	return nil
 }
